@@ -12,6 +12,15 @@ Line protocol of component `reservoir`:
 * `empty`                    → `1` | `0`
 * `enum <cap> <n>`           → `total=<#choice vectors> counts=<per-position retention counts>` (from `vectors`/`retained`)
 * `consumef <k|~>`           → as `consume`, the closure leaks the `Drain` (`mem::forget`): no count reset
+* `consumes <script> <fin>`   → a consume whose closure reads the `Drain` OBJECT (Model `DrainIt`) by a script.
+                               `script`: comma list (`.` empty) of `n` next(), `t<k>` nth(k), `l` len(), `r` sample_rate(),
+                               `h` size_hint(), `a` by_ref().collect(), `c` by_ref().count(), `z` by_ref().last();
+                               `fin` (what finally takes the Drain by value): `D` drop, `C` count(), `L` last(),
+                               `V` collect(), `S<k>` skip(k).collect().  Answer: `outs=<;-joined answers> fin=<answer>`;
+                               value = 16 hex | `~`, value lists `+`-joined (`-` empty), counts `#n`, size_hint `lo:hi|~`
+* `builder <calls> <n>`      → `DogStatsDBuilder::default()` + the calls (`s0`/`s1` with_histogram_sampling, `z<n>`
+                               with_histogram_reservoir_size; `.` none), one histogram, `n` values recorded, one flush:
+                               `sampled=<0|1> cap=<capacity|~> yielded=<number of values flushed> rate=<num>/<den>`
 * `crun <cap> <progs> <sched>` → concurrent run of `Model/ReservoirConc` on a fresh reservoir. `progs`: threads joined
                                by `/`, ops by `,` (`p<bits>:<raw>` push, `c` consume, `f` consume leaking the drain, `.`
                                empty program); `sched`: granted thread ids joined by `.`.  Answer:
@@ -87,6 +96,63 @@ def pushersAnswer (cap : Nat) (progs : List (List COp)) (sched : List Nat) : Str
   let seq := if inorder && done then drainTok (seqRun (Res.new cap) log).drain else "-"
   s!"pushonly={b (pushOnlySched s0 sched)} done={b done} inorder={b inorder} log={showList (fun (vc : Nat × Nat) => hex16 vc.1) log} n={(progs.flatMap pushPrefix).length} drain={drainTok s.asr.consume.2} seq={seq}"
 
+def valsTok (vs : List Nat) : String := if vs.isEmpty then "-" else "+".intercalate (vs.map hex16)
+def optValTok : Option Nat → String
+  | none => "~"
+  | some v => hex16 v
+
+def rateBitsIt (d : DrainIt) : Nat :=
+  let (n, m) := d.rate
+  (Float.ofNat n / Float.ofNat m).toBits.toNat
+
+/-- one script token of `consumes` on the iterator object: the object afterwards and the answer -/
+def itTok (d : DrainIt) (tok : String) : Option (DrainIt × String) :=
+  match tok.toList with
+  | ['n'] => let (d', o) := d.next; some (d', optValTok o)
+  | ['l'] => some (d, toString d.remaining)
+  | ['r'] => some (d, hex16 (rateBitsIt d))
+  | ['h'] => some (d, "0:~")                       -- default `Iterator::size_hint`: `(0, None)`
+  | ['a'] => let (d', vs) := d.pullAll; some (d', valsTok vs)
+  | ['c'] => let (d', vs) := d.pullAll; some (d', s!"#{vs.length}")
+  | ['z'] => let (d', vs) := d.pullAll; some (d', optValTok vs.getLast?)
+  | 't' :: k => do
+    let k ← (String.ofList k).toNat?
+    let (d', o) := d.nth k
+    pure (d', optValTok o)
+  | _ => none
+
+def itFin (d : DrainIt) (tok : String) : Option String :=
+  match tok.toList with
+  | ['D'] => some "-"
+  | ['C'] => some s!"#{d.pullAll.2.length}"
+  | ['L'] => some (optValTok d.pullAll.2.getLast?)
+  | ['V'] => some (valsTok d.pullAll.2)
+  | 'S' :: k => do
+    let k ← (String.ofList k).toNat?
+    pure (valsTok (d.advance k).pullAll.2)
+  | _ => none
+
+def itScript (d : DrainIt) (toks : List String) : Option (DrainIt × List String) :=
+  toks.foldlM (fun (acc : DrainIt × List String) t => do
+    let (d', a) ← itTok acc.1 t
+    pure (d', acc.2 ++ [a])) (d, [])
+
+def bopTok (s : String) : Option BOp :=
+  match s.toList with
+  | ['s', '0'] => some (.sampling false)
+  | ['s', '1'] => some (.sampling true)
+  | 'z' :: n => do pure (.size (← (String.ofList n).toNat?))
+  | _ => none
+
+/-- `builder <calls> <n>`: the histogram the configured builder creates, `n` pushes (values do not matter), one drain -/
+def builderAnswer (calls : List BOp) (n : Nat) : String :=
+  match (Builder.configure calls).histogram with
+  | .raw => s!"sampled=0 cap=~ yielded={n} rate=1/1"
+  | .sampled a =>
+    let a' := (List.range n).foldl (fun a i => a.push i 0) a
+    let d := a'.consume.2
+    s!"sampled=1 cap={a.primary.slots.length} yielded={d.values.length} rate={d.rate.1}/{d.rate.2}"
+
 def handle (st : Option ASR) (args : List String) : Option (Option ASR × String) :=
   match args with
   | ["new", cap] => do pure (some (ASR.new (← cap.toNat?)), "ok")
@@ -107,6 +173,10 @@ def handle (st : Option ASR) (args : List String) : Option (Option ASR × String
     let progs ← (progs.splitOn "/").mapM (listTok copTok)
     let sched ← if sched == "-" then some [] else (sched.splitOn ".").mapM String.toNat?
     pure (st, pushersAnswer cap progs sched)
+  | ["builder", calls, n] => do
+    let calls ← listTok bopTok calls
+    let n ← n.toNat?
+    pure (st, builderAnswer calls n)
   | op :: rest => do
     let a ← st
     match op, rest with
@@ -137,6 +207,13 @@ def handle (st : Option ASR) (args : List String) : Option (Option ASR × String
         | none => d.values
         | some k => d.values.take k
       pure (some a', s!"len={d.len} rate={hex16 (rateBits d)} vals={showList hex16 vals}")
+    | "consumes", [script, fin] => do
+      let toks ← listTok some script
+      let d0 := a.active.drainIt
+      let (d, outs) ← itScript d0 toks
+      let f ← itFin d fin
+      let outsS := if outs.isEmpty then "-" else ";".intercalate outs
+      pure (some a.consume.1, s!"outs={outsS} fin={f}")
     | "empty", [] => pure (some a, if a.isEmpty then "1" else "0")
     | _, _ => none
   | _ => none
